@@ -33,7 +33,10 @@ def main(tier, seed):
         fp_jobs = fp_jobs[1:2]      # one-sided box, iteration 0 (decides fastest); the other bit-precise jobs run under C02
     exs = driver.explore_many(jobs, time_limit=1200 if tier == "quick" else 7200, timeout_ms=20000, max_paths=100000)
     for ex in exs:
-        mine = [c for c in ex.candidates if c["name"].startswith("C16.") or c["name"].endswith("no_exception")]
+        # (the wrapper-level jobs run in the finite-difference modes only: "the gradient handed to the solver is the
+        # difference quotient of the differencing routine" belongs to C16 as well)
+        mine = [c for c in ex.candidates if c["name"].startswith("C16.") or c["name"].endswith("no_exception")
+                or (ex.target == T15 and c["name"] in ("C15.gradient_is_fresh", "C15.gradient_is_finite_on_degenerate_sides"))]
         ex.candidates = mine
         chk.add(ex)
         if mine:
